@@ -240,13 +240,13 @@ class Bus (objects.DBusObject):
             elif mt == 4:
                 self.signalReceived(p, msg)
 
-            if (
-                    msg.destination
-                    and not msg.destination == 'org.freedesktop.DBus'
-            ):
+            if not msg.destination:
+                # no destination: a broadcast, delivered through the match
+                # rules of the connected clients
+                self.router.routeMessage(msg)
+            elif not msg.destination == 'org.freedesktop.DBus':
+                # addressed to one connection: delivered there and only there
                 self.sendMessage(msg)
-
-            self.router.routeMessage(msg)
         except DError as e:
             sig = None
             body = None
